@@ -898,7 +898,10 @@ impl Xot {
                     if let Some(element) = element {
                         fullname_serializer.push(self.namespace_declarations(node));
                         let namespace_id = self.namespace_for_name(element.name());
-                        if !fullname_serializer.is_namespace_known(namespace_id) {
+                        // a name without namespace needs no binding
+                        if namespace_id != self.no_namespace()
+                            && !fullname_serializer.is_namespace_known(namespace_id)
+                        {
                             namespaces.push(namespace_id);
                         }
                         for name in self.attributes(node).keys() {
